@@ -20,6 +20,7 @@ type Config struct {
 	Symmetry     bool          // merge states that differ by a permutation of interchangeable workers (SpawnSym)
 	Budget       time.Duration // wall-clock budget; 0 = none.  Hitting it makes the result non-exhaustive.
 	MaxExec      int64
+	Quiet        bool          // do not print infrastructure trouble (self-checks that provoke it)
 	Stall        time.Duration // watchdog for a thread that does not reach a point
 }
 
@@ -368,9 +369,11 @@ func (e *Explorer) Explore(mk func() Run) *Stats {
 		if err != nil {
 			st.Exhaustive = false
 			st.Why = err.Error()
-			fmt.Println("INFRASTRUCTURE:", err)
-			for _, s := range res.Schedule() {
-				fmt.Println("   ", s)
+			if !e.Cfg.Quiet {
+				fmt.Println("INFRASTRUCTURE:", err)
+				for _, s := range res.Schedule() {
+					fmt.Println("   ", s)
+				}
 			}
 			break
 		}
@@ -415,7 +418,9 @@ func (e *Explorer) Explore(mk func() Run) *Stats {
 				} else {
 					st.Exhaustive = false
 					st.Why = "a failing execution did not replay identically (nondeterminism not under control); not reported as a violation: " + class
-					fmt.Println("INFRASTRUCTURE:", st.Why)
+					if !e.Cfg.Quiet {
+						fmt.Println("INFRASTRUCTURE:", st.Why)
+					}
 				}
 			}
 		}
